@@ -108,13 +108,28 @@ def source_constants(run):
     for needle in ('self._operation_str_variable = "query"', 'self._gql_func_name = "gql"'):
         if needle not in srcg:
             run.broken("source constants", f"client generator: {needle!r} not found (model prefix is 8 blanks + 'query = gql(')")
-    run.dist("source_constants", "checked", 9)
+    # the locations at which @mixin is accepted must be exactly the ones the stripper handles (the validity
+    # hypothesis mixin_located of C02_rewrites: FIELD and FRAGMENT_DEFINITION)
+    from graphql import build_schema as _bs
+
+    from ariadne_codegen.client_generators import result_types as rt
+    from ariadne_codegen.schema import add_mixin_directive_to_schema
+
+    sch = add_mixin_directive_to_schema(_bs("type Query { a: Int }"))
+    registered = sorted(loc.name for d in sch.directives if d.name == "mixin" for loc in d.locations)
+    handled = sorted(x.upper() for x in _re.findall(r"def enter_(\w+)\(", inspect.getsource(
+        rt.ResultTypesGenerator._get_node_without_mixin_directive)))
+    run.extra["mixin_locations"] = {"registered": registered, "stripped": handled}
+    if registered != handled or handled != ["FIELD", "FRAGMENT_DEFINITION"]:
+        run.broken("source constants", f"@mixin is accepted at {registered} but RemoveMixinVisitor strips it at {handled} "
+                                       "(Model/OpStr.v strip_*: FIELD, FRAGMENT_DEFINITION)")
+    run.dist("source_constants", "checked", 10)
 
 
 def k1_multiline(ctx):
     run = ctx.run
     source_constants(run)
-    n = 60000 if ctx.thorough else 12000
+    n = 60000 if ctx.thorough else 9000
     rng = random.Random(ctx.seed * 7919 + 11)
     cases = [(ls, v, False) for ls in CORPUS_LINES for v in ("client", "ops")]
     for i in range(n):
@@ -525,6 +540,95 @@ def stream_scenarios(ctx, name, scs, extract=False):
     return len(ok)
 
 
+NOREIMPORTS = "ariadne_codegen.contrib.no_reimports.NoReimportsPlugin"
+MIXIN_SDL = ("interface Node { id: ID! }\ntype A implements Node { id: ID! x: Int b: B }\ntype B { y: Int }\n"
+             "type Query {\n  a(id: ID): A\n  node: Node\n}\ntype Mutation { m(id: ID): A }\ntype Subscription { s(id: ID): A }\n")
+MX = '@mixin(from: ".c02_mixins", import: "M")'
+MIXIN_PLACES = {
+    "field": f"query Q {{ a {MX} {{ x }} }}",
+    "nested_field": f"query Q {{ a {{ b {MX} {{ y }} }} }}",
+    "leaf_field": f"query Q {{ a {{ x {MX} }} }}",
+    "fragment_definition": f"query Q {{ a {{ ...F }} }}\nfragment F on A {MX} {{ x }}",
+    "query": f"query Q {MX} {{ a {{ x }} }}",
+    "mutation": f"mutation Q {MX} {{ m {{ x }} }}",
+    "subscription": f"subscription Q {MX} {{ s {{ x }} }}",
+    "variable_definition": f"query Q($i: ID {MX}) {{ a(id: $i) {{ x }} }}",
+    "inline_fragment": f"query Q {{ node {{ id ... on A {MX} {{ x }} }} }}",
+    "fragment_spread": f"query Q {{ a {{ ...F {MX} }} }}\nfragment F on A {{ x }}",
+}
+
+
+def mixin_boundary(ctx):
+    """@mixin at every directive location of an executable document: either refused up front with the validation
+    error naming the directive, or what is sent is the authored operation without @mixin and valid"""
+    run = LockedRun(ctx.run)
+    scs = []
+    for i, (place, q) in enumerate(MIXIN_PLACES.items()):
+        for extract in (False, True):
+            scs.append((place, extract, scenario.Scenario(
+                seed=700 + i, sdl=MIXIN_SDL, queries=q + "\n", features=("c02", "mixin_at", place),
+                config={"async_client": True, "files_to_include": ["c02_mixins.py"],
+                        **({"plugins": [EXTRACT]} if extract else {})},
+                files={"c02_mixins.py": G.MIXINS_FILE})))
+    with workers.Scratch() as scratch:
+        gens = scen.generate([x[2] for x in scs], scratch)
+        for (place, extract, sc), g in zip(scs, gens):
+            run.count()
+            if not g.ok:
+                exc = g.res.get("exc") or ["?", "?"]
+                if "InvalidOperationForSchema" in exc[0] and "mixin" in exc[1]:
+                    run.dist("mixin_at", f"{place}:refused")
+                else:
+                    run.violation(f"@mixin at {place}: generation fails with {exc[0]} instead of the validation error",
+                                  dict(base_rep(g), exc=exc))
+                continue
+            run.dist("mixin_at", f"{place}:accepted")
+            run.nontrivial_case(("mixin_at", place, extract))
+            drive(run, g, None, None, "mixin_at_" + place, extract=extract)
+
+
+def regeneration_history(ctx):
+    """ExtractOperations behind/in front of NoReimports, into a fresh directory and over an older generation of an
+    EDITED set of operations: what is sent must be the current text"""
+    run = LockedRun(ctx.run)
+    base = ctx.seed * 100000 + 2000
+    cases = []
+    for i in range(12 if ctx.thorough else 3):
+        b = make_base(base + 12000 + i)
+        if not b:
+            continue
+        v1 = G.decorate(b, base + 3 * i, adversarial=False, mixin_field=False)
+        v2 = G.decorate(b, base + 3 * i + 1, adversarial=True, mixin_field=False, blocks=True)
+        if v1 and v2 and v1.queries != v2.queries:
+            # (plugins of the older generation, plugins of the regeneration)
+            cases.append((v1, v2, [([EXTRACT], [NOREIMPORTS, EXTRACT]), ([NOREIMPORTS, EXTRACT], [NOREIMPORTS, EXTRACT]),
+                                   ([EXTRACT, NOREIMPORTS], [EXTRACT, NOREIMPORTS])][i % 3]))
+    if not cases:
+        run.broken("regeneration history", "no scenario pair could be built")
+        return
+    with workers.Scratch() as scratch:
+        dirs = [scratch.new() for _ in cases]
+        r1 = workers.generate_many([v1.request(d, config={"plugins": pl[0]}) for (v1, _v2, pl), d in zip(cases, dirs)])
+        reqs2 = [v2.request(d, config={"plugins": pl[1]}) for (_v1, v2, pl), d in zip(cases, dirs)]
+        r2 = workers.generate_many(reqs2)
+        gens = [scen.Generated(v2, q, r) for (_v1, v2, _pl), q, r in zip(cases, reqs2, r2)]
+        for (v1, v2, pl), a, g in zip(cases, r1, gens):
+            run.count()
+            label = "+".join(x.rsplit(".", 1)[-1] for x in pl[0]) + " then " + "+".join(x.rsplit(".", 1)[-1] for x in pl[1])
+            if not a.get("ok") or not g.ok:
+                run.dist("regeneration", f"{label}:generator-raised")
+                if not generation_failed(run, g if not g.ok else scen.Generated(v1, {"dir": g.dir}, a), "regeneration"):
+                    run.violation(f"regeneration with plugins {label} fails: {(a.get('exc') or g.res.get('exc'))}",
+                                  dict(base_rep(g), first=a.get("exc"), second=g.res.get("exc")), found_input=True)
+                continue
+            run.dist("regeneration", f"{label}:generated-twice")
+            run.nontrivial_case(("regen", v2.seed, label))
+        ok = [g for g in gens if g.ok]
+        docs, sets = model_docs(ok) if ok else ([], [])
+        for g, d, s_ in zip(ok, docs, sets):
+            drive(run, g, d, s_, "regeneration_after_edit", extract=True)
+
+
 def make_base(seed, feats=()):
     try:
         return scenario.make(seed, feats)
@@ -736,6 +840,8 @@ def run(ctx):
     k2_closure(ctx)
     k2_lexer(ctx)
     documents(ctx)
+    mixin_boundary(ctx)
+    regeneration_history(ctx)
     literals(ctx)
     run.sample({"safe_lines": ["query A($v: Int = 3) {", '  echo(s: "a # b = c")', "}"],
                 "embedded": "\\n + 12 spaces before every non-blank line + 12 spaces"})
